@@ -116,3 +116,21 @@ func TestCountOfConstant(t *testing.T) {
 		assert.EqualValues(t, 3, got["s1"], sql)
 	}
 }
+
+// TestGlobalWindow_TriggerWithNot: SQL NOT, in any letter case, negates a
+// parenthesised comparison of TRIGGER WHEN as it does in WHERE.
+func TestGlobalWindow_TriggerWithNot(t *testing.T) {
+	t.Parallel()
+	for _, trigger := range []string{
+		"NOT (count(*) < 3)",
+		"not (count(*) < 3)",
+		"Not(count(*) < 3)",
+		"count(*) >= 3 AND NOT (sum(v) < 6)",
+		"NOT (count(*) < 3 OR sum(v*2) < 12)",
+	} {
+		got := runGlobalWindowExpr(t, `
+            SELECT k, count(*) AS c FROM stream
+            GROUP BY k, GLOBAL WINDOW TRIGGER WHEN `+trigger)
+		assert.EqualValues(t, 3, got["c"], trigger)
+	}
+}
